@@ -27,10 +27,12 @@ TypeMatches(ty, v) == ty = TypeOf(v) \/ (ty = "number" /\ TypeOf(v) = "integer")
 TypeSeq(S) == IF SHas(S, "type") THEN << S.type >> ELSE IF SHas(S, "types") THEN S.types ELSE << >>
 TypeOk(S, v) == \E i \in DOMAIN TypeSeq(S) : TypeMatches(TypeSeq(S)[i], v)
 
+LowerAscii == {"a", "b", "c", "d", "e", "f", "g", "h", "i", "j", "k", "l", "m", "n", "o", "p", "q", "r", "s",
+               "t", "u", "v", "w", "x", "y", "z"}
 (* the pattern table *)
 PatOk(p, cs) ==
     CASE p = "^a+$"      -> Len(cs) >= 1 /\ \A i \in DOMAIN cs : cs[i] = "a"
-      [] p = "^[a-z]*$"  -> \A i \in DOMAIN cs : cs[i] \in {"a", "b", "c", "x", "y", "z"}
+      [] p = "^[a-z]*$"  -> \A i \in DOMAIN cs : cs[i] \in LowerAscii
       [] p = "b"         -> \E i \in DOMAIN cs : cs[i] = "b"
       [] p = "^ab"       -> Len(cs) >= 2 /\ cs[1] = "a" /\ cs[2] = "b"
 
